@@ -943,6 +943,7 @@ class Lexer:
 
                     self.wc.clear()
                     self.expression = []
+                    self.in_range = False
                     self.ignore()
                     return self.lex_markup
 
@@ -972,6 +973,7 @@ class Lexer:
                     self.wc.clear()
                     self.tag_name = ""
                     self.expression = []
+                    self.in_range = False
                     self.ignore()
                     return self.lex_markup
 
@@ -1006,6 +1008,7 @@ class Lexer:
             self.line_statements = []
             self.line_space = []
             self.expression = []
+            self.in_range = False
             self.ignore()
             return self.lex_markup
 
@@ -1062,6 +1065,7 @@ class Lexer:
                 self.ignore()
                 self.tag_name = ""
                 self.expression = []
+                self.in_range = False
                 return self.lex_inside_liquid_tag
 
             if not self.accept_token(self.expression):
@@ -1099,6 +1103,7 @@ class Lexer:
                     self.line_statements = []
                     self.line_space = []
                     self.expression = []
+                    self.in_range = False
                     self.ignore()
                     return self.lex_markup
 
